@@ -168,7 +168,7 @@ static J gen_list_lengths(Chooser &ch)
   none.grains = false; none.velocity = false;
   g::FM m;
   const std::array<double, 2> ctr = g::gen_centre(ch, fr);
-  const int which = static_cast<int>(ch.range(0, 10));
+  const int which = static_cast<int>(ch.range(0, 12));
   J feat;
   std::string what, sig;
   auto drop_or_add = [&](J &arr) { if (arr.size() > 1 && ch.flip()) arr.a.pop_back(); else arr.a.push_back(arr.a.empty() ? J(1.0) : arr.a.back()); };
@@ -248,6 +248,18 @@ static J gen_list_lengths(Chooser &ch)
       drop_or_add(gm[ch.pick<std::string>({"basis Euler angles z-x-z", "grain sizes", "normalize grain sizes", "deflections"})]);
       feat["grains models"] = J::arr({gm});
       what = type + " random deflected grains: per-composition lists differ in length"; sig = "random-grains-lists";
+    }
+  else if (which == 11 || which == 12)
+    {
+      // a point of a depth given as values at points: one or three coordinates instead of two (feature level or model level)
+      feat = g::area_feature(ch, fr, none, ch.pick<std::string>({"continental plate", "oceanic plate", "mantle layer"}), ctr, 0, m);
+      const std::string key = ch.flip() ? "max depth" : "min depth";
+      const double v = key == "max depth" ? m.dmax : m.dmin;
+      J pt = which == 11 ? J::arr({J(m.kernel[0])}) : J::arr({J(m.kernel[0]), J(m.kernel[1]), J(m.kernel[1])});
+      J surf = J::arr({J::arr({J(v)}), J::arr({J(0.5 * (m.dmin + m.dmax)), J::arr({pt})})});
+      if (ch.flip()) feat[key] = surf;
+      else { J tm = J::obj(); tm["model"] = "uniform"; tm["temperature"] = 600.0; tm[key] = surf; feat["temperature models"] = J::arr({tm}); }
+      what = "'" + key + "' given as values at points: a point with " + (which == 11 ? "one coordinate" : "three coordinates"); sig = "value-point-coordinates";
     }
   else if (which == 10)
     {
@@ -398,6 +410,7 @@ static J gen_extreme(Chooser &ch)
 {
   g::Opt o;
   o.min_features = 1; o.max_features = 3; o.operations = true; o.model_ranges = true; o.global_constants = true; o.cross_section = 1; o.water = true; o.random_models = ch.chance(30);
+  o.depth_surfaces = true; o.depth_surface_interior = 6; // the coordinates and values of depth value points are numbers too
   g::GW w = g::gen_world(ch, o);
   J doc = w.root;
   std::vector<ObjectSite> objs;
@@ -467,6 +480,56 @@ static Result check_extreme(const J &c)
   return r;
 }
 
+// ---------------------------------------------------------------- (vii) size extremes of the text itself
+// Byte sequences that are tiny in information but extreme in shape: very deep nesting (alone, or as the value of a key inside an
+// otherwise valid world), very long strings / keys / numbers, very long flat arrays. The world is built from a description of the
+// shape (so that the replay file stays small); construction has to throw or succeed - in its own process: a stack overflow is a crash.
+static std::string shape_text(const J &c)
+{
+  const std::string kind = c.at("shape").str();
+  const size_t n = static_cast<size_t>(c.at("n").num());
+  auto rep = [](const std::string &u, size_t k) { std::string t; t.reserve(u.size() * k); for (size_t i = 0; i < k; ++i) t += u; return t; };
+  const std::string head = "{\"version\":\"1.1\",\"features\":[{\"model\":\"continental plate\",\"name\":\"a\",\"coordinates\":[[0,0],[1e5,0],[1e5,1e5]],\"max depth\":1e5,\"temperature models\":[{\"model\":\"uniform\",\"temperature\":";
+  const std::string tail = "}]}]}";
+  if (kind == "open-brackets") return rep("[", n);
+  if (kind == "open-braces") return rep("{\"a\":", n);
+  if (kind == "balanced-brackets") return rep("[", n) + rep("]", n);
+  if (kind == "balanced-objects") return rep("{\"a\":", n) + "1" + rep("}", n);
+  if (kind == "nested-in-world") return head + rep("[", n) + "1" + rep("]", n) + tail;                  // wrong type, deeply
+  if (kind == "nested-coordinates") return "{\"version\":\"1.1\",\"features\":[{\"model\":\"continental plate\",\"name\":\"a\",\"coordinates\":" + rep("[", n) + "0" + rep("]", n) + "}]}";
+  if (kind == "long-string") return "{\"version\":\"" + rep("1", n) + "\",\"features\":[]}";
+  if (kind == "long-key") return "{\"version\":\"1.1\",\"" + rep("k", n) + "\":1,\"features\":[]}";
+  if (kind == "long-number") return head + rep("9", n) + tail;
+  if (kind == "long-fraction") return head + "600." + rep("3", n) + tail;
+  if (kind == "long-array") { std::string t = "{\"version\":\"1.1\",\"features\":[{\"model\":\"continental plate\",\"name\":\"a\",\"coordinates\":["; for (size_t i = 0; i < n; ++i) t += (i ? "," : "") + std::string("[") + std::to_string(i % 977) + "," + std::to_string((i * 7) % 991) + "]"; return t + "],\"max depth\":1e5}]}"; }
+  if (kind == "comment-flood") return rep("/* [[[[ */", n) + "{\"version\":\"1.1\",\"features\":[]}";
+  return "{}";
+}
+static J gen_shape(Chooser &ch)
+{
+  J c = J::obj();
+  c["shape"] = ch.pick<std::string>({"open-brackets", "open-braces", "balanced-brackets", "balanced-objects", "nested-in-world", "nested-coordinates", "long-string", "long-key", "long-number", "long-fraction", "long-array", "comment-flood"});
+  c["n"] = static_cast<double>(ch.pick<int>({3, 50, 900, 1100, 20000, 300000, 2000000}));
+  return c;
+}
+static Result check_shape(const J &c)
+{
+  Result r;
+  r.nontrivial = c.at("n").num() >= 900; r.inner = 1; r.inner_nt = r.nontrivial ? 1 : 0;
+  r.classes.push_back(c.at("shape").str() + (c.at("n").num() >= 20000 ? " (large)" : ""));
+  std::unique_ptr<WB::World> W;
+  const std::string res = try_build(shape_text(c), &W);
+  if (!res.empty())
+    {
+      r.classes.push_back("rejected");
+      if (res.find("<empty message>") != std::string::npos) return Result::fail("empty-exception-message", "rejected, but the exception carries no message");
+      return r;
+    }
+  r.classes.push_back("constructed");
+  try { W->properties(std::array<double, 3>{{5e4, 2e4, 9e5}}, 1e4, {{{1, 0, 0}}, {{4, 0, 0}}}); } catch (const std::exception &) {}
+  return r;
+}
+
 int main(int argc, char **argv)
 {
   scratch_dir();
@@ -474,9 +537,10 @@ int main(int argc, char **argv)
   return run_main("C12", argc, argv,
   {
     {"schema_violation", "valid generated world + one injected violation of the schema emitted by the tree under test (unknown key where additionalProperties=false, removed required key, wrong JSON type, value outside an enum, wrong version) at a random site of the document; must throw std::exception with a message. Non-trivial: an injection site existed", 150, gen_schema_violation, check_schema_violation, 100, true, true},
-    {"list_lengths", "single-feature worlds in which exactly one of the documented parallel lists has a different length (fractions, plume section tables, gaussian tables, smooth fractions, random min/max, grains lists, spreading velocities per ridge point); must throw", 120, gen_list_lengths, check_must_throw, 100, true, true},
+    {"list_lengths", "single-feature worlds in which exactly one of the documented parallel lists has a different length (fractions, plume section tables, gaussian tables, smooth fractions, random min/max, grains lists, spreading velocities per ridge point, section entries for missing coordinates, depth value points with one or three coordinates); must throw", 120, gen_list_lengths, check_must_throw, 100, true, true},
     {"unsupported_option", "depth method 'continuous'; tian water content with an undocumented lithology; mass conserving with an undocumented reference model name; must throw", 60, gen_unsupported, check_must_throw, 100, true, true},
     {"formatting", "one valid world emitted in two styles (indentation, // and /* */ comments, permuted keys, exponent / trailing-zero numbers): both accepted, answers bit-identical at 12 points", 80, gen_formatting, check_formatting, 100, true, true},
     {"extreme_numbers", "schema-valid worlds with 1..3 numbers replaced by 0, -1, 1e-300, +-1e308, NaN/Infinity literals, sign flips, x1e6 and occasionally emptied/shortened lists: construction throws or succeeds, queries return or throw; each case in its own process, a crash is a failure", 200, gen_extreme, check_extreme, 100, true, true},
+    {"text_shapes", "texts that are extreme in shape rather than content: 3 .. 2 000 000 nested brackets / objects (unbalanced, balanced, as a value inside a valid world, as the coordinates), strings, keys and numbers of that many characters, arrays of that many points, that many comments; construction throws or succeeds (each case in its own process, a stack overflow is a crash). Non-trivial: n >= 900", 40, gen_shape, check_shape, 100, true, true},
   });
 }
